@@ -53,7 +53,14 @@ def _mem_attr(fi, paths, foreign=None):
 def _default_pair(prog, eng, attr):
     """the value an unseen destination starts with: defaultdict(lambda: (flag, id)) in __init__"""
     ci = prog.cls(STORAGE)
-    for fi, val in ci.attr_init.get(attr, []):
+    inits = list(ci.attr_init.get(attr, []))
+    for (h, y), x in prog.forwarders(STORAGE).items():
+        if x == attr:
+            # the memory lives in a private component and is presented through a forwarding property
+            ty = eng.typer.attr_type(STORAGE, h)
+            if ty and ty[0] == "cls" and ty[1] in prog.classes:
+                inits += list(prog.cls(ty[1]).attr_init.get(y, []))
+    for fi, val in inits:
         if isinstance(val, ast.Call) and (dotted(val.func) or "").endswith("defaultdict") and val.args:
             fac = val.args[0]
             if isinstance(fac, ast.Lambda) and not fac.args.args:
@@ -214,7 +221,7 @@ def _rest(run, prog, eng, scan_, mem):
         ok = f2.qual == ASSIGN or (f2.cls is not None and f2.cls.qual == STORAGE and f2.name == "__init__")
         run.ob("Q2", f"{f2.qual}:writes-{mem}", ok, loc(f2, e.node),
                f"{f2.qual} writes the outgoing session memory" + ("" if ok else " - only assign_outgoing may"))
-    run.floor("Q2", writers, 2)
+    run.floor("Q2", writers, 1)  # (assign_outgoing itself; the initialisation may sit in a component's constructor)
 
     # ------------------------------------------------------------------ Q3/Q4 send_sd
     send_sd = prog.lookup_method(PROTO, "send_sd")
